@@ -276,6 +276,20 @@ fn check_cli(c: &Case, ctx: &Ctx) -> Outcome {
         let xw = nk(ctx, &dir, "xw.skf")?;
         let wset = model::build_sample(&samples[0].1, k, rc).keys().cloned().collect();
         model::compare_nk(&xw, &t.weed(&wset, false), k, rc, Some(k_bits_for(k))).map_err(|m| Outcome::Fail(format!("weed: {m}")))?;
+        // weed with the generated filter flags on top (all of them are forwarded for both integer widths)
+        {
+            let n = t.nsamples();
+            let (g, sp) = c06::weed_filter_spec(&c.flags, n);
+            let mut args: Vec<String> = vec!["weed".into(), "x.skf".into(), "w.fa".into(), "-o".into(), "xwf.skf".into()];
+            args.extend(c06::weed_filter_args(&g, n));
+            let argv: Vec<&str> = args.iter().map(|s| s.as_str()).collect();
+            must_ok(&run_ska(ctx, &dir, &argv), &format!("ska {}", args.join(" ")))?;
+            let mut exp = t.weed(&wset, false);
+            if let Some(sp) = &sp {
+                exp = exp.filter(sp);
+            }
+            model::compare_nk(&nk(ctx, &dir, "xwf.skf")?, &exp, k, rc, Some(k_bits_for(k))).map_err(|m| Outcome::Fail(format!("ska {}: {m}", args.join(" "))))?;
+        }
         // delete (rewrites the file)
         if samples.len() >= 2 {
             let name = samples[gen::idx(c.del, samples.len())].0.clone();
@@ -418,7 +432,7 @@ fn check_large(c: &LargeCase, ctx: &Ctx) -> Outcome {
     }
 }
 
-const RULE: &str = "generated: every valid k (uniform + weight on 31/33/35/37/63), 1-4 samples; classes: ordinary, every stored k-mer fits 64 bits (k>=35: records A^(k-33+j)+33 random bases, length k..k+3), mixture, emptied table. In-process: build -> MergeSkaArray -> save -> load by the CLI's 64-then-128 dispatch: width used == width written, k/strand/names/rows (harness decoder) and nk text identical; align (generated filters), distance, delete, weed give identical results on the reloaded and the in-memory array. CLI: nk == model incl. k_bits; merge with an ordinary file in both orders and of three files (the outer two sharing k-mers the middle one lacks) in three orders, weed, delete, align == model; map of a sample against its own records == map model. Non-trivial: k>=35 file that fits 64 bits, or mixture, or k in {31,33,35}, or empty table.";
+const RULE: &str = "generated: every valid k (uniform + weight on 31/33/35/37/63), 1-4 samples; classes: ordinary, every stored k-mer fits 64 bits (k>=35: records A^(k-33+j)+33 random bases, length k..k+3), mixture, emptied table. In-process: build -> MergeSkaArray -> save -> load by the CLI's 64-then-128 dispatch: width used == width written, k/strand/names/rows (harness decoder) and nk text identical; align (generated filters), distance, delete, weed give identical results on the reloaded and the in-memory array. CLI: nk == model incl. k_bits; merge with an ordinary file in both orders and of three files (the outer two sharing k-mers the middle one lacks) in three orders, weed (plain and with the generated filter flags), delete, align == model; map of a sample against its own records == map model. Non-trivial: k>=35 file that fits 64 bits, or mixture, or k in {31,33,35}, or empty table.";
 
 fn show(c: &Case) -> serde_json::Value {
     let s = materialise(c);
